@@ -53,6 +53,7 @@ pub fn property() -> Property {
                 run: |cfg| run_part(cfg, total_strategy(), |s| Line { text: s.clone() }, check_total),
                 replay: |v| replay_case::<Line, _>(v, check_total),
             },
+            crate::props::fuzz_corpus_part!("uci_line"),
         ],
     }
 }
